@@ -155,6 +155,21 @@ class ModeRules:
                 pb = [ts.v('p%d' % i) for i in range(16)]
                 for i in range(16):
                     st2.mem[(BLK, (i,))] = ('tb', pb[i])
+                # every byte member other than the register starts from fresh "junk" leaves: if an output depends on one of
+                # them, the object carries state from one block to the next outside iv
+                junk = set()
+                for rq in [cls] + prog.all_bases(cls):
+                    rr = prog.records.get(rq)
+                    for fld in (rr['fields'] if rr else []):
+                        ft = prog.type(fld['t'])
+                        fk = fld['d'][2:]
+                        if fk == self.ivf or fld['n'] in ('initiv',):
+                            continue
+                        if ft.get('k') == 'array' and prog.type(ft['el']).get('bits') == 8 and ft.get('n', 0) <= 64:
+                            for i in range(ft['n']):
+                                nm = 'junk_%s_%d' % (fld['n'], i)
+                                junk.add(nm)
+                                st2.mem[(obj[0], obj[1] + (fk, i))] = ('tb', ts.v(nm))
                 before = {k: v for k, v in st2.mem.items() if k[0] == obj[0]}
                 r2 = I2.run(f, st2, this=P(*obj), args=[P(BLK, (0,))])
                 rec.saw(I2)
@@ -195,9 +210,17 @@ class ModeRules:
                                 if v2[0] == 'p' and v2[1] == BLK:
                                     ok = False
                                     det = 'member %s keeps a pointer into the caller\'s block after the step (hidden state outside iv)' % (rest,)
-                                elif not any(isinstance(x, str) and ('crypt' in x or 'aeshandle' in x) for x in rest):
-                                    ok = False
-                                    det = 'member %s changes during the step (state other than iv)' % (rest,)
+                    # outputs must not depend on what the other members held before the step
+                    if ok:
+                        used = set()
+                        for i in range(16):
+                            for loc_ in ((BLK, (i,)), (obj[0], obj[1] + (self.ivf, i))):
+                                gv = s3.mem.get(loc_)
+                                if gv is not None and gv[0] == 'tb':
+                                    used |= ts.leaves(gv[1])
+                        if used & junk:
+                            ok = False
+                            det = 'the step\'s result depends on member bytes %s left by the previous step (state other than iv)' % sorted(used & junk)[:3]
                     if not ok:
                         break
                 rec.ob('R10.s', key, ok, '%s:%s' % (f['file'], f['line']),
